@@ -547,7 +547,10 @@ class LenEval:
     def of_function(self, fn: ast.FunctionDef, ci: ClassInfo) -> Interval:
         """Length interval of the value returned by a small getter (straight-line + pad loops)."""
         from . import inline
-        fn = inline.flatten(self.repo, ci, fn)
+        try:
+            fn = inline.normalize(self.repo, ci, fn)           # named sizes (class / module constants, once-bound integer locals) read as values
+        except Exception:
+            fn = inline.flatten(self.repo, ci, fn)
         # locals bound once to an integer constant are read as that constant
         consts: Dict[str, ast.expr] = {}
         cnt: Dict[str, int] = {}
@@ -558,6 +561,15 @@ class LenEval:
             if isinstance(n, ast.Assign) and len(n.targets) == 1 and isinstance(n.targets[0], ast.Name) and cnt.get(n.targets[0].id) == 1 \
                     and isinstance(n.value, ast.Constant) and isinstance(n.value.value, int):
                 consts[n.targets[0].id] = n.value
+            elif isinstance(n, ast.Assign) and len(n.targets) == 1 and isinstance(n.targets[0], ast.Name) and cnt.get(n.targets[0].id) == 1 \
+                    and isinstance(n.value, (ast.Attribute, ast.Name)):
+                # slots = Sampler.XI_ENV_POINTS: a named integer constant of the package
+                try:
+                    v_ = self.repo.fold(n.value, ci=ci)
+                except Exception:
+                    v_ = None
+                if isinstance(v_, int) and not isinstance(v_, bool):
+                    consts[n.targets[0].id] = ast.Constant(value=v_)
         if consts:
             fn = inline._Rename(dict(consts)).visit(fn)
         # once-bound locals that name an integer expression over lengths (`missing = K - len(values)`) are written at their uses
